@@ -28,6 +28,15 @@ CLAIMED = {
                  'exactly the stored items once, evaluated on the real answers after every step.', 'DESIGN.md section 6 C13'),
     'C15': chain('On every delivered custom-module transaction (1-2 messages, failing at any position, fee 0/1, every signer/fee-payer arrangement) balances change only by the fee '
                  'from the stated payer to the fee collector, supply is unchanged, and a failing transaction leaves custom state unchanged.', 'DESIGN.md section 6 C15'),
+    'C03': chain('The stored document/sequence of a DID changes only through messages whose proof verifies against a current authentication key of the authorising document '
+                 '(formula written independently of the handler; the relaying account does not occur in it); alphabet: documents spanning the key-placement categories, '
+                 'proofs by any key over any payload and stale/current/future sequences, real secp256k1 signatures.', 'DESIGN.md section 6 C03'),
+    'C04': chain('Sequence arithmetic per accepted message, equality of the queried sequence with the stored one, and NoReplay: a history variable holds every accepted message and '
+                 'no accepted message may be accepted again (byte-identical inner message in a fresh transaction).', 'DESIGN.md section 6 C04'),
+    'C05': chain('Status automaton absent -> active -> tombstone with tombstone absorbing, across transactions, clean restarts and genesis export/import (actions of the specification '
+                 'enabled at every block boundary), and the NotFound answers of the read operation.', 'DESIGN.md section 6 C05'),
+    'C11': chain('Invariant: an active entry under d has document id d, and the read operation answers with a document about d; the DID field, document id and signed payload are '
+                 'chosen independently, including a hostile twin DID that differs from another only in the case of one letter.', 'DESIGN.md section 6 C11'),
 }
 
 PENDING_REASON = 'check not built yet in this round of work (planned in DESIGN.md section 11); no claim is made until its machinery exists'
